@@ -21,6 +21,12 @@ pub enum Op {
 	DeleteNow,
 	Run,
 	RunAsync,
+	/// marker closure sent at high priority (verif seam)
+	RunH,
+	/// marker closure sent at urgent priority (verif seam)
+	RunU,
+	/// raw Control::ContinueTryGracefulRestart through Job::control()
+	ContinueRaw,
 	SetHook,
 	UnsetHook,
 	SetErrH,
@@ -42,8 +48,8 @@ pub const SIG_PLAIN: i32 = 10; // User1: inert for the simulated child
 impl Op {
 	pub fn prio(self) -> Prio {
 		match self {
-			Op::ToWait => Prio::High,
-			Op::DeleteNow => Prio::Urgent,
+			Op::ToWait | Op::RunH => Prio::High,
+			Op::DeleteNow | Op::RunU => Prio::Urgent,
 			_ => Prio::Normal,
 		}
 	}
@@ -59,17 +65,18 @@ impl Op {
 		self.graceful_sig().is_some()
 	}
 	pub fn is_marker(self) -> bool {
-		matches!(self, Op::Run | Op::RunAsync)
+		matches!(self, Op::Run | Op::RunAsync | Op::RunH | Op::RunU)
 	}
 	pub fn may_spawn(self) -> bool {
-		matches!(self, Op::Start | Op::Restart | Op::GRestart | Op::TryRestart | Op::TryGRestart)
+		matches!(self, Op::Start | Op::Restart | Op::GRestart | Op::TryRestart | Op::TryGRestart | Op::ContinueRaw)
 	}
 	pub fn ends_job(self) -> bool {
 		matches!(self, Op::Delete | Op::DeleteNow)
 	}
 }
 
-pub const CORE: [Op; 11] = [
+pub const CORE: [Op; 12] = [
+	Op::ContinueRaw,
 	Op::Start,
 	Op::Stop,
 	Op::GStop,
@@ -332,7 +339,7 @@ pub fn order_family(tier: Tier) -> Vec<(Sc, Vec<Bounds>)> {
 		Tier::Quick => both(0),
 		Tier::Thorough => [both(0), both(1)].concat(),
 	};
-	let alpha = [Op::Run, Op::RunAsync, Op::ToWait, Op::DeleteNow, Op::Signal];
+	let alpha = [Op::Run, Op::RunAsync, Op::RunH, Op::RunU, Op::ToWait, Op::DeleteNow];
 	for pre in [vec![], vec![Op::Start], vec![Op::Start, Op::GStop]] {
 		for l in 1..=len {
 			for s in seqs(&alpha, l) {
